@@ -86,8 +86,25 @@ theorem C01_generator_passes_validator (vf : VFile.File) (enc : Encode.Enc) (m :
   let ⟨fm, hk, _⟩ := Universal.generator_checked (Encode.encode_ok he) hm ht
   ⟨fm, hk⟩
 
+/-- the grammar the generator theorem speaks about *is* the declared grammar: `Encode.encode` replaces every name
+by its rank in the strictly ascending list of declared terminal (resp. nonterminal) names, rule by rule, symbol
+by symbol, and the start symbol likewise (an injective renaming) -/
+theorem C01_coding_faithful {f : VFile.File} {enc : Encode.Enc} (h : Encode.encode f = some enc) :
+    Oset.Sorted enc.tsorted ∧ Oset.Sorted enc.nsorted ∧
+    (∀ x, x ∈ enc.tsorted ↔ x ∈ f.tenum.variants.map (·.name)) ∧
+    (∀ x, x ∈ enc.nsorted ↔ x ∈ f.nonterminals.map (·.name)) ∧
+    enc.ctx.nT = enc.tsorted.length ∧ enc.ctx.nN = enc.nsorted.length ∧
+    enc.nsorted[enc.ctx.g.start]? = some f.start ∧
+    enc.ctx.g.rules.length = f.rules.length ∧
+    ∀ (j : Nat) (r : VFile.Rule), f.rules[j]? = some r → ∃ cr : Rule Nat Nat, enc.ctx.g.rules[j]? = some cr ∧
+      enc.nsorted[cr.lhs]? = some r.ctor.typeName ∧ cr.rhs.length = r.fieldset.syms.length ∧
+      ∀ (k : Nat) (s : Ast.SymId), r.fieldset.syms[k]? = some s →
+        ∃ X, cr.rhs[k]? = some X ∧ Encode.decodesTo enc.tsorted enc.nsorted s X :=
+  Encode.encode_faithful h
+
 end KikiVerif.C01
 
+#print axioms KikiVerif.C01.C01_coding_faithful
 #print axioms KikiVerif.C01.C01_every_grammar
 #print axioms KikiVerif.C01.C01_generator_passes_validator
 #print axioms KikiVerif.C01.C01_no_panic_and_sound
